@@ -332,6 +332,9 @@ type Replayer func(c *Check, rf *ReplayFile) []vrt.Violation
 
 // Main is the entry point of every check binary.
 func Main(prop, level string, assumptions []string, run func(c *Check), replay Replayer, describe func(tier string) map[string]any) {
+	if os.Getenv("VERIF_HOOK_MODE") == "fallback" {
+		assumptions = append(append([]string{}, assumptions...), "eventbus hook built in fallback mode: shard routing assumed to be that of the pinned commit (FNV-1a of the type string, 32 shards)")
+	}
 	tier := flag.String("tier", "quick", "quick|thorough")
 	worker := flag.Int("worker", -1, "worker index (internal)")
 	nworkers := flag.Int("nworkers", 0, "number of workers")
